@@ -38,7 +38,13 @@ type c14Model struct {
 	n        int
 }
 
-var c14Kinds = []string{"int", "int8", "uint16", "bool", "float64", "complex128", "string", "S", "[]int", "int64", "uint8"}
+var c14Kinds = []string{"int", "int8", "uint16", "bool", "float64", "complex128", "string", "S", "[]int", "int64", "uint8", "Cnt", "Flt"}
+
+// named types with pointer-receiver methods: `v.Inc()` on a global takes its address implicitly
+type c14Cnt int
+type c14Flt float64
+
+const c14Prelude = "type S struct {\n\tA int\n\tB string\n}\ntype Cnt int\nfunc (c *Cnt) Inc() {\n\t*c++\n}\ntype Flt float64\nfunc (f *Flt) Inc() {\n\t*f += 1\n}"
 
 func c14Literal(kind string, k int) (src string, val interface{}) {
 	switch kind {
@@ -58,6 +64,11 @@ func c14Literal(kind string, k int) (src string, val interface{}) {
 		return fmt.Sprint(v), v
 	case "bool":
 		return fmt.Sprint(k%2 == 0), k%2 == 0
+	case "Cnt":
+		return fmt.Sprint(k*3 - 7), c14Cnt(k*3 - 7)
+	case "Flt":
+		v := float64(k)*0.25 + 1
+		return fmt.Sprint(v), c14Flt(v)
 	case "float64":
 		v := float64(k)*0.5 - 3
 		lit := fmt.Sprint(v)
@@ -97,6 +108,10 @@ func c14Inc(c *c14Cell) bool {
 	case float64:
 		c.val = v + 1
 	case complex128:
+		c.val = v + 1
+	case c14Cnt:
+		c.val = v + 1
+	case c14Flt:
 		c.val = v + 1
 	default:
 		return false
@@ -141,7 +156,7 @@ func runC14(t *testing.T, ch *sim.Choices, tier string) (o Outcome) {
 	shipped := gen.Draw(40) == 39
 	valDelta := []int{0, 1, 2, 16}[gen.Draw(4)]
 	intDelta := []int{0, 1, 3, 8}[gen.Draw(4)]
-	ir, out, lerr := newInterp("type S struct {\n\tA int\n\tB string\n}")
+	ir, out, lerr := newInterp(c14Prelude)
 	if lerr != "" {
 		o.fail("interp-error", "c14|load", lerr)
 		return
@@ -445,7 +460,15 @@ func runC14(t *testing.T, ch *sim.Choices, tier string) (o Outcome) {
 		case op == 9:
 			v := pick(m.vars)
 			if c14Inc(m.cell[v]) {
-				if !eval(v+"++", "") {
+				stmt := v + "++"
+				if k := m.cell[v].kind; (k == "Cnt" || k == "Flt") && gen.Draw(3) != 0 {
+					stmt = v + ".Inc()" // pointer receiver: takes the address of the global
+					if !addrTaken {
+						addrTaken = true
+					}
+					o.probe("addresses_taken_of_integer_slots", 1)
+				}
+				if !eval(stmt, "") {
 					return
 				}
 			}
